@@ -3,6 +3,9 @@ package main
 import (
 	"bytes"
 	"fmt"
+	"os"
+	"path/filepath"
+	"sort"
 	"strings"
 
 	"github.com/maruel/panicparse/v2/stack"
@@ -79,4 +82,83 @@ func c06History(r *core.Run) {
 		r.DistinctN(1)
 	}
 	r.Count("history_trials", n)
+}
+
+// c06HistoryScan: the same for scanning with path guessing. Dump B is scanned after dump A; both name files under
+// one remote root R, which on the remote machine was Go root and GOPATH at once, so that A makes the library learn
+// "R is the Go root" while a file of B under R/src exists only in the local GOPATH. B scanned after A must resolve
+// like B scanned alone ("alone" again through a root name no earlier call has seen).
+func c06HistoryScan(r *core.Run) {
+	base := filepath.ToSlash(filepath.Join(os.Getenv("VERIF_WORK"), "c06hist"))
+	defer os.RemoveAll(base)
+	lgoroot, lgopath := base+"/goroot", base+"/gp"
+	files := map[string]string{ // path under the remote root -> local file
+		"src/fmt/print.go":                      lgoroot + "/src/fmt/print.go",
+		"src/sort/sort.go":                      lgoroot + "/src/sort/sort.go",
+		"src/apkg/a.go":                         lgopath + "/src/apkg/a.go",
+		"src/zpkg/z.go":                         lgopath + "/src/zpkg/z.go",
+		"pkg/mod/github.com/x/y@v1.0.0/y.go":    lgopath + "/pkg/mod/github.com/x/y@v1.0.0/y.go",
+		"src/nowhere/n.go":                      "",
+		"pkg/mod/github.com/gone/g@v1.0.0/g.go": "",
+	}
+	var rels []string
+	for rel, local := range files {
+		rels = append(rels, rel)
+		if local != "" {
+			_ = os.MkdirAll(filepath.Dir(local), 0o755)
+			_ = os.WriteFile(local, []byte("package p\n"), 0o644)
+		}
+	}
+	sort.Strings(rels)
+	opts := &stack.Opts{LocalGOROOT: lgoroot, LocalGOPATHs: []string{lgopath}, GuessPaths: true}
+	dump := func(root string, pick []string) []byte {
+		var b strings.Builder
+		b.WriteString("goroutine 1 [running]:\n")
+		for i, rel := range pick {
+			fmt.Fprintf(&b, "example.com/p%d.F(0x%x)\n\t%s/%s:%d +0x1d\n", i, i+1, root, rel, 10+i)
+		}
+		b.WriteString("\n")
+		return []byte(b.String())
+	}
+	key := func(s *stack.Snapshot, token string) string {
+		if s == nil {
+			return "<nil>"
+		}
+		var b strings.Builder
+		fmt.Fprintf(&b, "goroot=%s gopaths=%v\n", s.RemoteGOROOT, s.RemoteGOPATHs)
+		for _, g := range s.Goroutines {
+			for _, c := range g.Stack.Calls {
+				fmt.Fprintf(&b, "%s -> local=%s rel=%s import=%s class=%v\n", c.RemoteSrcPath, c.LocalSrcPath, c.RelSrcPath, c.ImportPath, c.Location)
+			}
+		}
+		return strings.ReplaceAll(b.String(), token, "TOKEN")
+	}
+	n := r.N(200, 4000)
+	for t := 0; t < n; t++ {
+		rr := core.NewRand(r.Seed, 67, uint64(t))
+		sub := func() []string {
+			var out []string
+			for _, rel := range rels {
+				if rr.Chance(1, 2) {
+					out = append(out, rel)
+				}
+			}
+			if len(out) == 0 {
+				out = []string{rels[rr.Intn(len(rels))]}
+			}
+			return out
+		}
+		a, bsel := sub(), sub()
+		ta, tb := fmt.Sprintf("/remote/u%da/go", t), fmt.Sprintf("/remote/u%db/go", t)
+		_, _, _, _ = scanAll(dump(ta, a), opts)
+		after, _, _, _ := scanAll(dump(ta, bsel), opts)
+		alone, _, _, _ := scanAll(dump(tb, bsel), opts)
+		r.Eval(3)
+		if ka, kb := key(after, ta), key(alone, tb); ka != kb {
+			r.Violation("scan-depends-on-earlier-scan", fmt.Sprintf("a dump scanned after another dump that names files under the same remote root resolves differently from the same dump scanned alone:\nafter %v:\n%salone:\n%s", a, ka, kb), "hist", map[string]any{"trial": t, "first": a, "second": bsel})
+			return
+		}
+		r.DistinctN(1)
+	}
+	r.Count("history_scan_trials", n)
 }
